@@ -85,6 +85,19 @@ func (s *Stream) On(feature string) bool {
 	return s.B >= a
 }
 
+// Rare is an unbiased rare event with probability per1024/1024 (rapid's
+// integer generators favour small values, so IntRange(0,n)==k is not 1/(n+1)).
+func (s *Stream) Rare(label string, per1024 int) bool {
+	v := 0
+	for i := 0; i < 10; i++ {
+		v <<= 1
+		if rapid.Bool().Draw(s.T, label) {
+			v |= 1
+		}
+	}
+	return v < per1024
+}
+
 // LateActivations is the number of features whose activation index is > 0 and
 // has been reached (used for non-triviality labels).
 func (s *Stream) LateActivations() int {
@@ -118,6 +131,11 @@ func (s *Stream) Str() string {
 		return rapid.SampledFrom(s.strs).Draw(s.T, "ps")
 	case k == 11 && s.K.Hostile:
 		return rapid.SampledFrom(invalidUTF8).Draw(s.T, "bad")
+	case k == 10 && s.Rare("longk", 40):
+		// long values: beyond 255 and beyond 65,535 bytes
+		s.Stats["long_string"]++
+		n := rapid.SampledFrom([]int{256, 300, 70000, 65536}).Draw(s.T, "longn")
+		return strings.Repeat(rapid.SampledFrom([]string{"x", "ab", "é"}).Draw(s.T, "longc"), n)[:n]
 	default:
 		return rapid.StringN(0, 6, 18).Draw(s.T, "rs")
 	}
@@ -327,6 +345,13 @@ func (s *Stream) Attrs(m pcommon.Map, feature string) {
 	n := rapid.IntRange(0, 4).Draw(s.T, "na")
 	if s.K.Scale >= 1 && rapid.IntRange(0, 7).Draw(s.T, "nak") == 0 {
 		n = rapid.IntRange(0, 12).Draw(s.T, "na2")
+	}
+	if s.Rare("widek", 4) {
+		// a map with more than 255 distinct keys
+		s.Stats["wide_map"]++
+		for i := 0; i < 300; i++ {
+			m.PutInt("wk"+itoa(int64(i)), int64(i%3))
+		}
 	}
 	for i := 0; i < n; i++ {
 		s.Val(m.PutEmpty(s.Key()), 0)
